@@ -358,6 +358,8 @@ class Scenario:
             "align16": "mov eax, %d\n.align 16\nmov ebx, %d" % (k, k),
             "func_body": "test eax, eax\nje .Lz\nmov eax, %d\n.Lz:\nret" % k,
             "func_simple": "mov eax, %d\nret" % k,
+            "decline": "<decline>",
+            "alias_data": "jmp .Lskip\nt1_%d:\nt2_%d:\n.byte %d\n.Lskip:\nmov eax, %d" % (mi, mi, k & 0xFF, k),
         }
         if name.startswith("jmp:"):
             text = "mov eax, %d\njmp %s" % (k, name[4:])
@@ -380,6 +382,8 @@ class Scenario:
         def fn(ctx, _text=text, _mi=mi):
             self.contexts.append((_mi, ctx))
             self.invocations += 1
+            if _text == "<decline>":
+                return None  # "no insertion takes place"
             if self.fault_at is not None and self.invocations == self.fault_at:
                 from harness.rewrite import InjectedFault
                 self.fault_snapshot = set(self.ir.cfg)
